@@ -20,6 +20,7 @@ class Baton(object):
         self.finished = set()
         self.tids = []
         self.log = []           # (tid, event, detail)
+        self.picks = []         # every scheduling decision, in order (a complete replayable schedule)
         self.local = threading.local()
 
     # ---- worker side ------------------------------------------------------------------------------------
@@ -73,6 +74,7 @@ class Baton(object):
                 steps += 1
                 if steps > max_steps:
                     raise Deadlock("step budget exhausted")
+                self.picks.append(tid)
                 self.running = tid
                 self.mu.notify_all()
 
